@@ -141,6 +141,34 @@ def r1(prog, rep):
     rep.check(ok, "R2-constants", "requests are served in chunks of min(buflen, 65536), advancing buffer and count together", ce.loc, "%s %s" % (vals, adv), function=ce.name, construct="chunking")
 
 
+def r2_amounts(prog, rep):
+    """How much OS entropy goes into the state, whatever the functions look like inside: the lengths asked of entropy_read on
+    the way through instantiate() (following the unit's own calls) are {48} -- entropy input plus nonce -- and through
+    reseed() {32}.  Needs no variable names."""
+    u = prog.unit(UNIT)
+    byname = {f.name: f for f in u.funcs if f.file == UNIT}
+
+    def amounts(f, seen):
+        out = set()
+        if f.name in seen:
+            return out
+        seen.add(f.name)
+        for c in f.calls():
+            if c.callee == "entropy_read":
+                n = norm(c.arg(1))
+                out.add(n[1] if n[0] == "c" else show(n))
+            elif c.callee in byname:
+                out |= amounts(byname[c.callee], seen)
+        return out
+    for fn, want in (("instantiate", {48}), ("reseed", {32})):
+        f = byname.get(fn)
+        if f is None:
+            raise cdb.AnalysisBroken("anchor missing: %s" % fn)
+        got = amounts(f, set())
+        rep.check(got == want, "R2-amounts", "%s takes %s bytes from the OS entropy source" % (fn, sorted(want)), f.loc, "lengths asked for on the way through %s: %s" % (fn, sorted(got, key=str)),
+                  function=fn, construct="entropy-amount")
+
+
 def r2_r3(prog, rep):
     u = prog.unit(UNIT)
     ins, rs, up, ge = u.func("instantiate"), u.func("reseed"), u.func("update"), u.func("generate")
@@ -285,6 +313,7 @@ def run(tier):
         prog = ir.Program([UNIT, "util/entropy.c"], cfg)
         rep.add_stats(prog)
         u = prog.unit(UNIT)
+        r2_amounts(prog, rep)
         okn = True
         for fn, names in (("instantiate", ["seed_material"]), ("reseed", ["seed_material"]), ("update", ["K", "Vx", "ctx", "data", "datalen"]),
                           ("generate", ["buf", "buflen", "bufpos"]), ("crypto_entropy_read", ["buf", "buflen", "bytes_to_provide"])):
